@@ -334,6 +334,12 @@ func runC13() *RunResult {
 				o.Got = "skipped"
 				return
 			}
+			if o.Arg2 == 1 && cfg.Funcs != 0 {
+				// the user functions hand back Accessors of their own: still function outputs
+				t.rec.RetAcc = true
+				defer func() { t.rec.RetAcc = false }()
+				t.probe("user-function-returned-an-accessor-of-its-own")
+			}
 			ares, aout := safeRetrieve(p.Text, st.real, cfgArgs(acfg))
 			o.Got = aout
 			if simrt.Aborted() != 0 {
@@ -451,7 +457,11 @@ func runC13() *RunResult {
 		default:
 			p = genPathFor(st.real, cfg.Funcs, false, 4, 1)
 		}
-		t.ops = append(t.ops, retrieve(p, cfg))
+		rop := retrieve(p, cfg)
+		if cfg.Funcs != 0 && chance(30) {
+			rop.Arg2 = 1
+		}
+		t.ops = append(t.ops, rop)
 		cases = append(cases, fnv(p.Text+"|"+snap))
 	}
 	nh := 2 + rn(11)
@@ -555,6 +565,29 @@ func runC13() *RunResult {
 			t.ops = append(t.ops, o)
 		default: // re-retrieval
 			cfg := CfgSpec{Present: true}
+			if chance(25) {
+				// first a retrieval in which a user function panics half-way (the caller
+				// recovers): what the retrievals after it return is judged as always
+				pp := &PathSpec{Text: pick([]string{"$..*.id()", "$.*.id()", "$[*].id()", "$..*.tag()", "$[?(@.id())]", "$.*.cnt()"})}
+				k := rn(4)
+				acc := chance(70)
+				po := &Op{Kind: opCustom, Path: pp, Cfg: CfgSpec{Present: true, Funcs: 1<<nFuncs - 1, Accessor: acc}}
+				po.Do = func(t *Task, o *Op) {
+					if st.dead {
+						o.Got = "skipped"
+						return
+					}
+					for f := range t.rec.Panics {
+						t.rec.Panics[f] = 1 << uint(k)
+					}
+					_, o.Got = safeRetrieve(pp.Text, st.real, cfgArgs(o.Cfg))
+					t.rec.Panics = [nFuncs]uint64{}
+					if t.rec.Panicked > 0 {
+						t.fault("callback-panicked")
+					}
+				}
+				t.ops = append(t.ops, po)
+			}
 			p := genPathFor(st.real, 0, false, 4, 0)
 			t.ops = append(t.ops, retrieve(p, cfg))
 		}
